@@ -16,16 +16,18 @@ package gaussian
 //@   ensures [rejected] result.1 != nil ==> result.0 == nil
 //@
 //@ func (*Distribution).Exponent
-//@   props C14
-//@   fp-abstract
+//@   props C14 C11
+//@   fp-inexact
 //@   requires d != nil
 //@   modifies nothing
+//@   ensures [non-negative] result >= 0.0
 //@
 //@ func (*Distribution).PDF
-//@   props C14
-//@   fp-abstract
+//@   props C14 C11
+//@   fp-inexact
 //@   requires d != nil
 //@   modifies nothing
+//@   ensures [non-negative] d.standardDeviation >= 0.000000001 ==> result >= 0.0
 //@
 //@ func (*Distribution).CDF
 //@   props C14
